@@ -770,26 +770,34 @@ func c08GenConc(r *rng) []c08ConcIn {
 		}
 	}
 	ntx := len(in.Txs)
+	scenario := r.intn(100)
 	// what the pool holds after the prefix
 	var pooled []int
 	inPool := map[int]bool{}
-	base := c08Input{Cap: in.Cap, Txs: in.Txs, Bal: in.Bal, Ops: in.Ops}
-	if s, err := c08NewSess(&base, nil); err == nil {
+	for round := 0; round < 2; round++ {
+		base := c08Input{Cap: in.Cap, Txs: in.Txs, Bal: in.Bal, Ops: in.Ops}
+		s, err := c08NewSess(&base, nil)
+		if err != nil {
+			break
+		}
 		for _, op := range in.Ops {
 			if !s.do(op) {
 				break
 			}
 		}
 		pooled = s.prev
-		for _, x := range pooled {
-			inPool[x] = true
+		if scenario >= 82 && round == 0 && in.Cap != len(pooled)+1 {
+			in.Cap = len(pooled) + 1 // the last slot: one free place (the prefix is run again with this capacity)
+			continue
 		}
-		if len(s.coqSteps) > 0 { // the balances the last prefix RemoveStale put in force
-			for _, op := range in.Ops {
-				if op.Op == "stale" {
-					g.Bal = op.Bal
-				}
-			}
+		break
+	}
+	for _, x := range pooled {
+		inPool[x] = true
+	}
+	for _, op := range in.Ops { // the balances the last prefix RemoveStale put in force
+		if op.Op == "stale" {
+			g.Bal = op.Bal
 		}
 	}
 	var outside []int
@@ -836,14 +844,14 @@ func c08GenConc(r *rng) []c08ConcIn {
 		return out
 	}
 	hold := false
-	switch x := r.intn(100); {
-	case x < 22: // the same transaction from two peers (and something else)
+	switch x := scenario; {
+	case x < 20: // the same transaction from two peers (and something else)
 		i := pick(r, outside)
 		in.Conc = []c08Op{{Op: "add", I: i}, {Op: "add", I: i}}
 		if r.chance(40) {
 			in.Conc = append(in.Conc, pick(r, []c08Op{{Op: "add", I: r.intn(ntx)}, {Op: "remove", I: i}, {Op: "add", I: i}}))
 		}
-	case x < 42: // transactions in conflict / of one payer
+	case x < 38: // transactions in conflict / of one payer
 		i := pick(r, outside)
 		rel := related(i)
 		j := r.intn(ntx)
@@ -854,7 +862,7 @@ func c08GenConc(r *rng) []c08ConcIn {
 		if r.chance(35) {
 			in.Conc = append(in.Conc, c08Op{Op: "add", I: pick(r, outside)})
 		}
-	case x < 58: // Add against Remove
+	case x < 50: // Add against Remove
 		i := pick(r, outside)
 		j := i
 		if len(pooled) > 0 && r.chance(60) {
@@ -864,19 +872,22 @@ func c08GenConc(r *rng) []c08ConcIn {
 		if r.chance(35) {
 			in.Conc = append(in.Conc, c08Op{Op: "add", I: pick(r, outside)})
 		}
-	case x < 78: // Add against the refresh after a block
+	case x < 70: // Add against the refresh after a block
 		in.Conc = []c08Op{{Op: "add", I: pick(r, outside)}, staleOp()}
 		if r.chance(50) {
 			in.Conc = append(in.Conc, pick(r, []c08Op{{Op: "add", I: pick(r, outside)}, {Op: "remove", I: r.intn(ntx)}, {Op: "verify", I: r.intn(ntx)}}))
 		}
-	case x < 88: // readers together
+	case x < 82: // readers together
 		hold = true
 		in.Conc = []c08Op{{Op: "verify", I: r.intn(ntx)}, {Op: "verify", I: r.intn(ntx)}}
 		if r.chance(40) {
 			in.Conc = append(in.Conc, c08Op{Op: pick(r, []string{"verify", "has"}), I: r.intn(ntx)})
 		}
-	default: // three Adds for the last slots
-		in.Conc = []c08Op{{Op: "add", I: pick(r, outside)}, {Op: "add", I: pick(r, outside)}, {Op: "add", I: r.intn(ntx)}}
+	default: // two or three Adds for the last slot
+		in.Conc = []c08Op{{Op: "add", I: pick(r, outside)}, {Op: "add", I: pick(r, outside)}}
+		if r.chance(50) {
+			in.Conc = append(in.Conc, c08Op{Op: "add", I: r.intn(ntx)})
+		}
 	}
 	var out []c08ConcIn
 	for _, order := range c08Perms(len(in.Conc)) {
